@@ -101,7 +101,7 @@ def main():
             for l in out.strip().splitlines()[-6:]:
                 print("    " + l[:300])
     finally:
-        sh("git -C /repo checkout -- .")
+        sh("git -C /repo checkout -- . && git -C /repo clean -fdq")
         rc, out = sh("git -C /repo status --porcelain")
         assert out.strip() == "", "/repo not clean after undo: " + out
     meta["checks"] = results
